@@ -234,7 +234,13 @@ def median(seq, key=identity):
     if length % 2 == 1:
         return key(sseq[(length - 1) // 2])
     else:
-        return (key(sseq[(length - 1) // 2]) + key(sseq[length // 2])) / 2.0
+        low, high = key(sseq[(length - 1) // 2]), key(sseq[length // 2])
+        mean = (low + high) / 2.0
+        if math.isinf(mean) and not (math.isinf(low) or math.isinf(high)):
+            # the sum of two finite values overflowed: halve first (exact at
+            # this magnitude) so that the result stays between low and high
+            mean = low / 2.0 + high / 2.0
+        return mean
 
 
 def sortLogNondominated(individuals, k, first_front_only=False):
